@@ -92,7 +92,7 @@ func (c *Cluster) respond(e *Entry, mode string) {
 		return
 	}
 	vr, known := c.versionsOf(e.Broker)[e.Key]
-	if e.Key != protocol.ApiVersions && (!known || e.Version < vr.Min || e.Version > vr.Max) {
+	if e.Key != protocol.ApiVersions && !c.AcceptAnyVersion && (!known || e.Version < vr.Min || e.Version > vr.Max) {
 		// Kafka closes the connection for versions it does not support (except ApiVersions)
 		e.ProdErr = fmt.Sprintf("unsupported version %d of api %d (broker supports %v)", e.Version, e.Key, vr)
 		c.dropConn(e.sc)
